@@ -447,6 +447,9 @@ def oracle(d, o, dt_ps):
     f = oracle_definition(d, o, dt_ps, key, sc)
     if f is not None:
         return f
+    f = oracle_rescale(d, o, key)
+    if f is not None:
+        return f
     if not claims:
         return None
     if o["t"] != "arr" and o["t"] != "et":
@@ -964,6 +967,79 @@ def add_linear(rng, d):
     return dd
 
 
+RESCALE_EXPS = [-45, 35, -33, 31, -52, 44]
+
+
+def rescaled(d, exps):
+    """the same case with channel ch of the data multiplied by 2^exps[ch] (exact); planted responses follow;
+    integer data become float64"""
+    r = dict(d)
+    r["data"] = [hexs([float.fromhex(x) * 2.0 ** exps[ch] for x in row]) for ch, row in enumerate(d["data"])]
+    if "planted" in d:
+        pl = dict(d["planted"])
+        pl["resp"] = [{c: hexs([float.fromhex(x) * 2.0 ** exps[ch] for x in h]) for c, h in rr.items()}
+                      for ch, rr in enumerate(d["planted"]["resp"])]
+        r["planted"] = pl
+    if r.get("variant", {}).get("layout") == "int":
+        r["variant"] = dict(r["variant"], layout="C")
+    r["claims"] = [c for c in d.get("claims", []) if c not in ("linear", "equiv")]
+    for k in ("linear", "partner", "rescale", "times_obs"):
+        r.pop(k, None)
+    r["scale_exp"] = d.get("scale_exp", 0) + exps[0]
+    return r
+
+
+def oracle_rescale(d, o, key):
+    """the estimators are linear per channel: with channel ch of the data multiplied by 2^e[ch] every number of that
+    channel's estimate is multiplied by 2^e[ch] (relative tolerance), shapes, t0, interval and error class unchanged.
+    A hidden absolute threshold or a dtype truncation breaks this on any input."""
+    rs = d.get("rescale")
+    if not rs or d["kind"] == "design":
+        return None
+    o2, exps = rs["obs"], rs["exps"]
+    nch = len(d["data"])
+    k = key + "/rescaled"
+    if o["t"] != o2["t"] or (o["t"] == "err" and o.get("e") != o2.get("e")):
+        return Fail(k, "data rescaled by powers of two per channel %s: a different kind of outcome" % exps,
+                    {x: o2.get(x) for x in ("t", "e", "msg", "what")}, {x: o.get(x) for x in ("t", "e", "msg", "what")})
+    def cmp(v1, v2, e, where):
+        f = Fraction(2) ** e
+        a1 = [Fraction(x) if x == x else None for x in v1]
+        a2 = [Fraction(x) if x == x else None for x in v2]
+        if len(a1) != len(a2):
+            return Fail(k, "size changed under rescaling (%s)" % where, len(a2), len(a1))
+        mag = max([abs(x) for x in a1 if x is not None] + [Fraction(0)]) * f
+        for x1, x2 in zip(a1, a2):
+            if (x1 is None) != (x2 is None) or (x1 is not None and abs(x2 - x1 * f) > Fraction(1, 10 ** 9) * mag):
+                return Fail(k, "estimate of the data times 2^%d is not 2^%d times the estimate (%s)" % (e, e, where),
+                            None if x2 is None else float(x2), None if x1 is None else float(x1 * f))
+        return None
+    if o["t"] == "arr":
+        if o["shape"] != o2["shape"] or o["t0"] != o2["t0"] or o["dt"] != o2["dt"]:
+            return Fail(k, "shape / t0 / interval changed under rescaling of the data",
+                        (o2["shape"], o2["t0"], o2["dt"]), (o["shape"], o["t0"], o["dt"]))
+        v1, v2 = unhex(o["vals"]), unhex(o2["vals"])
+        if len(v1) != len(v2) or len(v1) % nch:
+            return Fail(k, "size changed under rescaling", len(v2), len(v1))
+        m = len(v1) // nch
+        for ch in range(nch):
+            f = cmp(v1[ch * m:(ch + 1) * m], v2[ch * m:(ch + 1) * m], exps[ch], "channel %d" % ch)
+            if f:
+                return f
+    elif o["t"] == "et":
+        if [len(c) for c in o["items"]] != [len(c) for c in o2["items"]]:
+            return Fail(k, "number of event types changed under rescaling", None, None)
+        for ch in range(len(o["items"])):
+            for i1, i2 in zip(o["items"][ch], o2["items"][ch]):
+                if (i1["t0"], i1["dt"], len(i1["segs"])) != (i2["t0"], i2["dt"], len(i2["segs"])):
+                    return Fail(k, "t0 / interval / number of segments changed under rescaling", None, None)
+                for s1, s2 in zip(i1["segs"], i2["segs"]):
+                    f = cmp(unhex(s1), unhex(s2), exps[ch], "et_data channel %d" % ch)
+                    if f:
+                        return f
+    return None
+
+
 def prepare(d, rng=None, force=False):
     """complete a case description with what depends on the implementation: event times in ps, the
     partner run (same events as a coded series), the runs on the two summands"""
@@ -977,6 +1053,13 @@ def prepare(d, rng=None, force=False):
         lin = d["linear"]
         lin["r1"], _, _ = run_case(dict(d, claims=[], data=lin["y1"], seq=None))
         lin["r2"], _, _ = run_case(dict(d, claims=[], data=lin["y2"], seq=None))
+    if d["kind"] != "design" and (force or "rescale" not in d):
+        exps = (d.get("rescale") or {}).get("exps")
+        if not exps:
+            j = rng.randrange(len(RESCALE_EXPS)) if rng is not None else 0
+            exps = [RESCALE_EXPS[(j + ch) % len(RESCALE_EXPS)] for ch in range(len(d["data"]))]
+        o2, _, _ = run_case(rescaled(d, exps))
+        d["rescale"] = {"exps": exps, "obs": o2}
 
 
 def make_case(d, rng=None):
@@ -1076,6 +1159,15 @@ def run(ctx):
         inputs.extend(gen_seq(rng, big, False))
     for _ in range(ctx.scale(12, 60)):
         inputs.extend(gen_seq(rng, big, True))
+    extra = []
+    for d in inputs:
+        if d["kind"] != "design" and not d.get("oracle_only") and not d.get("seq") and "linear" not in d.get("claims", []) \
+                and rng.random() < (0.2 if len(d["data"]) > 1 else 0.05):
+            j = rng.randrange(len(RESCALE_EXPS))
+            r = rescaled(d, [RESCALE_EXPS[(j + ch) % len(RESCALE_EXPS)] for ch in range(len(d["data"]))])
+            r["class"] = d.get("class", d["kind"]) + "/rescaled-per-channel"
+            extra.append(r)
+    inputs.extend(extra)
     cases = [make_case(d, rng) for d in inputs]
     kcases = [c for c in cases if c.in_k]
     shard = ctx.scale(60, 160)
